@@ -221,7 +221,7 @@ fn helper_op(rng: &mut Rng, fresh: bool) -> Op {
 /// A family of related operations, shaped so that state leaking from one call to another would show.
 fn family(rng: &mut Rng, corpus: &Corpus, deep_levels: (usize, usize), out: &mut Vec<Op>) -> &'static str {
     let fresh = rng.chance(1, 4);
-    match rng.weighted(&[14, 14, 10, 8, 8, 8, 6, 6, 5, 5, 6]) {
+    match rng.weighted(&[14, 14, 10, 8, 8, 8, 6, 6, 5, 5, 6, 3]) {
         0 => {
             // same rule x different data (corpus rule)
             let (r, d) = rng.pick(&corpus.cases).clone();
@@ -371,6 +371,27 @@ fn family(rng: &mut Rng, corpus: &Corpus, deep_levels: (usize, usize), out: &mut
                 out.push(Op::apply(&t(&r), &dt, rng.chance(1, 4)));
             }
             "operation-shaped-data"
+        }
+        11 => {
+            // wide rules: hundreds of distinct paths / keys / strings in one process (tables with a
+            // capacity, caches that evict, interning that resets)
+            let n = *rng.pick(&[70usize, 300, 600, 1300]);
+            let tag = rng.below(1000);
+            let mut d = serde_json::Map::new();
+            for i in 0..8 {
+                d.insert(format!("k{}", i), json!({"x": i, "y": [i, i + 1]}));
+            }
+            let dt = t(&Value::Object(d));
+            for part in 0..rng.range(2, 4) {
+                let paths: Vec<Value> = (0..n).map(|i| json!({"var": format!("k{}.{}{}_{}_{}", i % 8, if i % 2 == 0 { "x" } else { "q" }, tag, part, i)})).collect();
+                let r = match rng.below(3) {
+                    0 => json!({"cat": paths}),
+                    1 => json!({"missing": (0..n).map(|i| json!(format!("k{}.m{}_{}_{}", i % 8, tag, part, i))).collect::<Vec<_>>()}),
+                    _ => json!({"merge": paths}),
+                };
+                out.push(Op::apply(&t(&r), &dt, false));
+            }
+            "wide-rule-many-distinct-paths"
         }
         _ => {
             // structurally equal values at distinct addresses: same texts, one shared, one fresh
@@ -1071,6 +1092,28 @@ pub fn oracle_level_checks(run: &E1Run, rng: &mut Rng, oracle: &mut Oracle) -> (
             }
         }
     }
+    // a log that was evaluated writes its line even when a later operand of the same call fails
+    if rng.chance(1, 4) {
+        let l = gen::atom(rng);
+        // (the operand is bracketed: {"log": [1,2,3]} would be a log with three operands)
+        let rule = json!({"cat": [{"log": [l.clone()]}, {"+": [{"var": "v"}]}]});
+        let op = Op::apply(&rule.to_string(), "{\"v\":\"x\"}", false);
+        let a = oracle.query(&op, ORACLE_STACK_KB);
+        n += 1;
+        let want = format!("{}\n", l);
+        if !matches!(a.res, Res::Err(_)) || a.out() != want {
+            v.push(Violation {
+                property: "C17".into(),
+                class: "log-line-lost-or-changed-when-the-call-fails-later".into(),
+                thread: 0,
+                op_idx: 0,
+                op: Some(op),
+                expected: format!("Err(..) after writing {:?}", want),
+                got: format!("{} after writing {:?}", res_text(&a.res), a.out()),
+                needs: "input-only".into(),
+            });
+        }
+    }
     // every line written by log is one complete JSON text
     if rng.chance(1, 2) {
         let op = *rng.pick(&applies);
@@ -1267,6 +1310,16 @@ pub fn recheck_oracle_level(target: &Violation, oracle: &mut Oracle) -> Vec<Viol
             let a = oracle.query(&op, ORACLE_STACK_KB);
             if !iterates && log_lines(&a.out()) > logs {
                 v.push(target.clone());
+            }
+        }
+    } else if target.class == "log-line-lost-or-changed-when-the-call-fails-later" {
+        let a = oracle.query(&op, ORACLE_STACK_KB);
+        if let Ok(rule) = serde_json::from_str::<Value>(&op.args[0]) {
+            if let Some(l) = rule.get("cat").and_then(|c| c.get(0)).and_then(|x| x.get("log")).and_then(|a| a.as_array()).filter(|a| a.len() == 1).map(|a| &a[0]) {
+                let want = format!("{}\n", l);
+                if !matches!(a.res, Res::Err(_)) || a.out() != want {
+                    v.push(target.clone());
+                }
             }
         }
     } else if target.class == "log-line-is-not-one-json-text" {
